@@ -79,7 +79,7 @@ def cases(draw, ctx, two_d=False):
     m = draw(st.sampled_from(METHODS_2D if two_d else METHODS_3D))
     return {"file": desc, "m": m, "axis": draw(st.integers(0, 2)), "ord": draw(st.sampled_from(BAD_ORD)),
             "rng": draw(st.sampled_from(BAD_RANGE)), "u": [draw(st.floats(0, 1, exclude_max=True)) for _ in range(4)],
-            "coord": draw(st.sampled_from(["between", "below", "above", "stop+1", "stop", "start-1"])),
+            "coord": draw(st.sampled_from(["between", "below", "above", "stop+1", "stop", "start-1", "zero"])),
             "argt": draw(st.sampled_from(ops.ARG_FLAVOURS))}
 
 
@@ -91,7 +91,9 @@ def off_axis(ax, how):
         return ax[0] + np.sign(inc)
     if how == "between":
         return ax[0] + inc / 2.0
-    if how == "below":
+    if how == "zero" and not np.any(ax == 0):
+        return 0.0      # the value 0 where the axis does not carry it (recording delay, depth datum, line numbering from 1000)
+    if how in ("below", "zero"):
         return lo - 2 * abs(inc) - 1
     if how == "above":
         return hi + 2 * abs(inc) + 1
@@ -280,6 +282,15 @@ def run_case(case, ctx):
                     cb = z[0] + inc * b
                     if b == ns:
                         cb = z[0] + inc * (ns + 1)
+                    if case["coord"] == "zero" and z[0] > 0:
+                        # the coordinate 0 on an axis that starts later (recording delay): one bound is 0, the other
+                        # a sample of the trace; 0 is neither on the axis nor its stop value
+                        k = min(ns - 1, int(u[1] * ns))
+                        ca, cb = (0.0, z[k]) if case["rng"] in BAD_RANGE[::2] else (z[k], 0.0)
+                        if case.get("argt") == "intp":
+                            ca, cb = (0, cb) if ca == 0 else (ca, 0)
+                        empty_ok = False
+                        allowed = []
                     what = f"get_trace_by_coord({i}, {ca}, {cb}) with samples {z[0]}..{z[-1]}"
                     call = lambda: r.get_trace_by_coord(i, ca, cb)
             elif m in ("cdiag", "adiag"):
